@@ -45,6 +45,6 @@ const (
 )
 
 // Names is an ordered list of all the state names.
-var Names = S{CreatingExpense, ExpenseCreated, WaitingForApproval, ApprovalGranted, PaymentInProgress, PaymentCompleted}
+var Names = S{CreatingExpense, ExpenseCreated, WaitingForApproval, ApprovalGranted, PaymentInProgress, PaymentCompleted, am.StateException}
 
 // #endregion
